@@ -281,7 +281,7 @@ end""", ['r', 'x']),
 ]
 
 
-def gen_program(rnd: random.Random):
+def gen_program(rnd: random.Random, allow_params=True):
     """returns (source text, goal variable names)"""
     lines_init, body = [], []
     nacc = rnd.randint(1, 3)
@@ -289,6 +289,7 @@ def gen_program(rnd: random.Random):
     nfin = rnd.randint(0, 2)
     fins = ['c', 'd'][:nfin]
     params = rnd.sample(['p', 'q'], rnd.randint(0, 1))
+    if not allow_params: params = []
     fracs = ['1/2', '1/3', '1/4', '2/3', '3/4', '1/5']
     consts = ['1', '2', '-1', '3', '1/2', '0']
 
@@ -391,10 +392,10 @@ def gen_program(rnd: random.Random):
     return src, accs + fins
 
 
-def family(seed, n):
+def family(seed, n, allow_params=True):
     rnd = random.Random(seed)
     out = []
     for i in range(n):
-        src, goals = gen_program(rnd)
+        src, goals = gen_program(rnd, allow_params)
         out.append((f'gen{seed}_{i}', src, goals))
     return out
